@@ -1204,6 +1204,48 @@ class Gen:
                         f'Definition gf_single_branch_source : string := "{esc(single_body)} || {esc(single_else)}"%string.\n'
                         f'Definition gf_fill_else_source : string := "{esc("; ".join(re.sub(r"[(].*[)]$", "(...)", ast.unparse(w), flags=re.S) for w in warn))}"%string.')
 
+    def table_rows(self, fname, qual, coqname, source_stmt, param, ptype, header_coqname):
+        """a CSV table builder of the form `[<source> = <attribute chain>]; csv_array = [[<header strings>]]; for ...: csv_array.append([...]);
+        return csv_array`: the loop is translated as a function of the iterated list (the header row, being text, becomes a string list)"""
+        import copy
+        node = self.find(fname, qual)
+        body = [s for s in node.body if not (isinstance(s, ast.Expr) and isinstance(s.value, ast.Constant))]
+        i = 0
+        if source_stmt is not None:
+            if ast.unparse(body[0]) != source_stmt:
+                raise Unsupported(f"{qual}: first statement is expected to be `{source_stmt}`, found `{ast.unparse(body[0])[:80]}`")
+            i = 1
+        if len(body) != i + 3:
+            raise Unsupported(f"{qual}: expected header, one loop and a return, found {len(body) - i} statements")
+        hd, loop, ret = body[i], body[i + 1], body[i + 2]
+        ok = (isinstance(hd, ast.Assign) and ast.unparse(hd.targets[0]) == "csv_array" and isinstance(hd.value, ast.List) and len(hd.value.elts) == 1
+              and isinstance(hd.value.elts[0], ast.List) and all(isinstance(e, ast.Constant) and isinstance(e.value, str) for e in hd.value.elts[0].elts))
+        if not ok:
+            raise Unsupported(f"{qual}: csv_array must start as one header row of string literals")
+        if not isinstance(loop, ast.For) or loop.orelse or ast.unparse(ret) != "return csv_array":
+            raise Unsupported(f"{qual}: expected `for ...` then `return csv_array`")
+        it = loop.iter
+        inner = it.args[0] if (isinstance(it, ast.Call) and isinstance(it.func, ast.Name) and it.func.id == "enumerate" and len(it.args) == 1) else it
+        want = param if source_stmt is not None else None
+        if want is not None and ast.unparse(inner) != want:
+            raise Unsupported(f"{qual}: the loop must iterate over {want}")
+        lp = copy.deepcopy(loop)
+        if want is None:
+            # the loop iterates over an attribute chain: it becomes the parameter
+            self.out.append(f"(* {fname}:{loop.lineno} {qual}: iterates over {ast.unparse(inner)} *)\n"
+                            f'Definition {coqname}_source : string := "{ast.unparse(inner)}"%string.')
+            nm = ast.Name(id=param, ctx=ast.Load())
+            if inner is it:
+                lp.iter = nm
+            else:
+                lp.iter.args[0] = nm
+        fake = ast.FunctionDef(name=coqname, args=ast.arguments(posonlyargs=[], args=[ast.arg(arg=param)], kwonlyargs=[], kw_defaults=[], defaults=[]),
+                               body=[ast.parse("csv_array = []").body[0], lp, copy.deepcopy(ret)], decorator_list=[], lineno=node.lineno, col_offset=0)
+        ast.fix_missing_locations(fake)
+        tr = FuncTr(self, fake, coqname, ptypes={param: ptype})
+        self.out.append(f"(* {fname}:{node.lineno} {qual}: the data rows *)\n{tr.translate()}")
+        self.out.append(f"(* {fname}:{hd.lineno} {qual}: header row *)\nDefinition {header_coqname} : list string := {self.slist([e.value for e in hd.value.elts[0].elts])}.")
+
     def raw(self, text):
         self.out.append(text)
 
@@ -1347,6 +1389,9 @@ def build_spec(g):
     # ---- output time conversion (output.py) ----
     g.func("output.py", "OutputManager.hours_to_month", coqname="hours_to_month")
     g.func("output.py", "OutputManager.ghe_time_convert", coqname="ghe_time_convert", rettype="tuple")
+    g.table_rows("output.py", "OutputManager.get_hourly_loading_data", "hourly_table_rows", "hourly_loadings = design.ghe.hourly_extraction_ground_loads",
+                 "hourly_loadings", "list Q", "hourly_table_header")
+    g.table_rows("output.py", "OutputManager.get_borehole_location_data", "bore_table_rows", None, "bore_locations", "list (Q * Q)", "bore_table_header")
     # ---- search and sizing leaves ----
     g.func("utilities.py", "sign")
     g.func("utilities.py", "check_bracket", rettype="bool")
